@@ -270,3 +270,13 @@ def structify(ast, structs):
             return ['var', n[1] + '.value']
         return sg.with_children(n, [go(c) for c in sg.children(n)])
     return go(ast)
+
+
+def scale_bounds(ast, k):
+    """the same formula with every interval bound multiplied by k (the unit of the bounds became k ticks)"""
+    def go(n):
+        ch = [go(c) for c in sg.children(n)]
+        if n[0] in sg.TUN + sg.TBIN:
+            n = [n[0], n[1] * k, n[2] * k] + list(n[3:])
+        return sg.with_children(n, ch)
+    return go(ast)
